@@ -17,11 +17,10 @@
     exact for the integer-valued floats below 2^53 the float scenarios use
     (the property speaks about exactly representable partial sums only). *)
 From Coq Require Import List Arith Bool ZArith.
-From Garr Require Import Conc.Conc.
+From Garr Require Import Conc.Conc Pure.F64.
 Import ListNotations.
 Local Open Scope Z_scope.
 
-Definition wrap64 (z : Z) : Z := (z + 2 ^ 63) mod 2 ^ 64 - 2 ^ 63.
 Definition wadd (a b : Z) : Z := wrap64 (a + b).
 
 Record ashared := AS {
